@@ -16,10 +16,11 @@ stream IDs `uint64`, deadlines `int64` — evaluated by the driver on every stat
 * `encode_deterministic`: `canon a = canon b → encode a = encode b` — two nodes with the same keyspace produce the same bytes;
 * `encode_injective`, `encode_injective_on_canon`, `same_bytes_same_keyspace`: the bytes determine the keyspace.
 
-`commands_agree_statement` (replies of EVERY command agree on the loaded keyspace) as stated below is FALSE — HRANDFIELD in
-prediction mode answers a prefix of the stored field list, which the snapshot reorders (`Snap.commands_agree_statement_false`); it is
-PROVED for every other command (`Snap.commands_agree_partial`), for programs (`Snap.restored_node_indistinguishable_partial`/`_mixed`)
-and, for all commands, at the level of the driver's verdict in checker mode (`Snap.restored_node_same_verdicts`): `Props/Equiv.lean`.
+`commands_agree_statement` (replies of EVERY command agree on the loaded keyspace, stated below) is PROVED in `Props/Equiv.lean`:
+`Snap.commands_agree`, for programs `Snap.restored_node_indistinguishable` and `Snap.same_snapshot_same_answers`, at the level of the
+driver's verdict in checker mode `Snap.restored_node_same_verdicts`.  (Against the first version of the model the statement was
+false: HRANDFIELD in prediction mode answered a prefix of the STORED field list, which the snapshot reorders.  The model's default
+answer now selects from the bytewise-sorted fields — `Exec.hrandDefault`, `Exec.hrandCanon` — and the leak is gone.)
 `canon_get_exact_partial` is the fragment where the loaded value is EQUAL (strings, lists, streams). -/
 namespace Snap
 open Exec (Db Entry Value StreamId StreamEntry bytesLt sortBy insertSorted sortBytes)
@@ -268,11 +269,10 @@ theorem canon_get_exact_partial (db : Db) (hi : Inv db) (k : Bytes) (e : Entry) 
   cases v <;> first | rfl | exact hv.elim
 
 /-- every command of `Exec.cmdTable` answers the same on the restored keyspace as on the original one (after `canonReply`, which sorts
-    the replies whose order depends on Go map iteration).  AS STATED (all commands, any environment) THIS IS FALSE:
-    `Snap.commands_agree_statement_false` (HRANDFIELD without an acceptable observation answers a prefix of the stored field list).
-    Proved for all commands but HRANDFIELD: `Snap.commands_agree_partial`, from the congruence of every executor under `ValEquiv`
-    (`Exec.Equiv.exec_respects_equiv_partial`, `Props/Equiv.lean`); for all commands in checker mode:
-    `Snap.restored_node_same_verdicts`. -/
+    the replies whose order depends on Go map iteration), in every environment (checker mode and prediction mode).
+    PROVED: `Snap.commands_agree` (`Props/Equiv.lean`), from the congruence of every executor under `ValEquiv`
+    (`Exec.Equiv.exec_respects_equiv`).  The first version of the model refuted it (HRANDFIELD's default answer was a prefix of the
+    stored field list); the default was canonicalised (`Exec.hrandDefault`). -/
 def commands_agree_statement : Prop :=
   ∀ (env : Exec.Env) (db : Db) (args : List Bytes), Inv db → Bounded db →
     Exec.replyAgrees (Exec.canonReply (Exec.lower (args.headD [])) (Exec.exec env (canon db) args).1)
